@@ -132,7 +132,7 @@ def r6_1(ctx: Ctx, E: Effects, rule="R6.1"):
                 ctx.ob(rule, f, st, not bad,
                        "the alignment keeps its own copy of the molecule it is given"
                        + ("" if not bad else " -- it stores the caller's object (%s)" % bad), node=st)
-    ctx.floor(rule, n, 4, "non-None stores to Alignment._start/_end")
+    ctx.floor(rule, n, 2, "non-None stores to Alignment._start/_end")
 
 
 def inplace_effects(E: Effects, funcs: List[Func]):
